@@ -11,7 +11,10 @@
 (* is printed when it cannot be extended by a client message any more.       *)
 (***************************************************************************)
 EXTENDS WSServerImpl, Json
-CONSTANTS MaxIn, MaxEng,
+CONSTANTS Syms,      \* the client symbols this configuration draws from (subset of Alphabet)
+          EngWhats,  \* the engine events this configuration draws from
+          Extras,    \* FALSE: no timers, transport faults, slow inits, held writes (targeted configurations)
+          MaxIn, MaxEng,
           PreInit   \* TRUE: every schedule starts with connection_init (used with -simulate: a random walk over the
                     \* graphql-transport-ws alphabet closes the connection almost immediately otherwise)
 VARIABLES s, hist, nin, neng,
@@ -57,6 +60,7 @@ EngineEv(k, what) ==
 
 \* the terminal message of a query is on the wire, the engine has not yet got the write call back
 EngineEvHold(k, what) ==
+  /\ Extras
   /\ Proto = "tws" /\ ~s.closed /\ neng < MaxEng /\ nin < MaxIn /\ held.k = 0 /\ ~slow /\ UNCHANGED <<slow, ticked>>
   /\ s.ex[k].st = "exec" /\ s.ex[k].kind = "q" /\ what \in Whats("q") /\ ~s.ex[k].canc
   /\ held' = [k |-> k, what |-> what]
@@ -74,6 +78,7 @@ Release ==
 
 \* the transport breaks for good: every read fails from now on; the handler gives up after its read-error time-out
 Broken ==
+  /\ Extras
   /\ ~s.closed /\ held.k = 0 /\ held' = held /\ ~slow /\ UNCHANGED <<slow, ticked>>
   /\ s' = Shut(s)
   /\ hist' = Append(hist, StepRec("broken", "", "", Pos, ""))
@@ -81,6 +86,7 @@ Broken ==
 
 \* connection_init never arrives in time (only before any init was sent: no race with the timer)
 InitTimeout ==
+  /\ Extras
   /\ Proto = "tws" /\ ~s.closed /\ ~s.inited /\ held' = held /\ UNCHANGED <<slow, ticked>>
   /\ s' = Shut(s)
   /\ hist' = Append(hist, StepRec("timeout", "", "", Pos, ""))
@@ -90,6 +96,7 @@ InitTimeout ==
 \* init timeout may fire meanwhile (graphql-transport-ws).  On an acknowledged graphql-transport-ws connection the
 \* InitFunc is not consulted (second init => 4429).
 InitSlow ==
+  /\ Extras
   /\ ~s.closed /\ nin < MaxIn /\ ~slow /\ held.k = 0 /\ held' = held /\ ticked' = ticked
   /\ hist' = Append(hist, StepRec("in", "initslow", "", Pos, ""))
   /\ nin' = nin + 1 /\ neng' = neng
@@ -108,14 +115,15 @@ InitGo ==
 \* acknowledged connection only
 \* (it shares the budget of the engine events, so that the number of schedules stays in bounds)
 Tick ==
+  /\ Extras
   /\ ~s.closed /\ ~slow /\ held.k = 0 /\ ~ticked /\ neng < MaxEng
   /\ s.inited \/ nin <= 1          \* before the ack only early in the schedule (keeps the number of schedules in bounds)
   /\ ticked' = TRUE /\ neng' = neng + 1
   /\ hist' = Append(hist, StepRec("tick", "", "", Pos, ""))
   /\ UNCHANGED <<s, nin, held, slow>>
 
-GenNext == \/ \E sym \in Alphabet : ClientMsg(sym)
-           \/ \E k \in KS, what \in {"data", "fin", "error", "result"} : EngineEv(k, what)
+GenNext == \/ \E sym \in Syms : ClientMsg(sym)
+           \/ \E k \in KS, what \in EngWhats : EngineEv(k, what)
            \/ \E k \in KS, what \in {"error", "result"} : EngineEvHold(k, what)
            \/ Release
            \/ InitTimeout
